@@ -185,6 +185,10 @@ func (n *Net) deliver(m *Message) {
 		case "Status":
 			n.fire(fmt.Sprintf("transport.status-%d", f.Status))
 			r.status, r.body = f.Status, f.Body
+		case "StatusKeepBody":
+			// the service's (well-formed) answer under a failure status
+			n.fire(fmt.Sprintf("transport.status-%d-with-valid-body", f.Status))
+			r.status = f.Status
 		case "ReadErr":
 			n.fire("transport.body-read-error")
 			r.readErrAt = f.At
